@@ -359,13 +359,19 @@ pub fn add_prefix_sweep(p: &mut Plan, q: bool, backends: &[Backend]) {
                                 if !ok {
                                     break;
                                 }
+                                if k == input.len() {
+                                    let mut b = input.to_vec();
+                                    append_tails(ck, &lane, &mut b, &m, &o);
+                                }
                                 // once terminal, one more prefix and the full input are enough
                                 if o.st != St::Partial && k + 1 < input.len() {
-                                    let (_, _) = ck.eval(&lane, input, Some(&{
-                                        let mut mm = m;
-                                        mm.feed(&input[k..]);
-                                        mm
-                                    }), Some((&o, k)));
+                                    let mut mm = m;
+                                    mm.feed(&input[k..]);
+                                    let (of, okf) = ck.eval(&lane, input, Some(&mm), Some((&o, k)));
+                                    if okf {
+                                        let mut b = input.to_vec();
+                                        append_tails(ck, &lane, &mut b, &mm, &of);
+                                    }
                                     break;
                                 }
                                 parent = Some((o, k));
@@ -552,6 +558,25 @@ pub fn add_utf8_sweep(p: &mut Plan, q: bool, backends: &[Backend]) {
     p.bounds.push(format!("S2c UTF-8: all sequences of 1..=4 bytes over {} boundary bytes (7E 80 8F 90 9F A0 BF C0 C1 C2 DF E0 E1 EC ED EE EF F0 F1 F3 F4 F5 FF) in the request target after ASCII prefixes of lengths {:?}, followed by nothing / 'a' / 0x80", sigma.len(), prefixes));
 }
 
+const TAIL_LENS: [usize; 11] = [1, 7, 8, 15, 16, 31, 32, 33, 63, 64, 65];
+
+/// `buf` (already evaluated: observation `po`, model `m`) followed by 1..65 more bytes.
+fn append_tails(ck: &mut Checker, lane: &Lane, buf: &mut Vec<u8>, m: &Model, po: &Obs) {
+    let n = buf.len();
+    for (i, &t) in TAIL_LENS.iter().enumerate() {
+        let fill = [b'x', b'\t', b' '][i % 3];
+        buf.truncate(n);
+        buf.extend(std::iter::repeat(fill).take(t));
+        let mut mm = *m;
+        mm.feed(&buf[n..]);
+        ck.eval(lane, buf, Some(&mm), Some((po, n)));
+        if ck.full() {
+            break;
+        }
+    }
+    buf.truncate(n);
+}
+
 /// Every prefix of long single-field messages: run length L, one offending byte of a small set at
 /// every position (block scanners and look-ahead fast paths see different amounts of data at
 /// every split point).
@@ -590,6 +615,13 @@ pub fn add_field_prefix_sweep(p: &mut Plan, q: bool, backends: &[Backend]) {
                                         break;
                                     }
                                     parent = Some((o, k));
+                                }
+                                // and the full message followed by more data of several lengths:
+                                // block scanners and look-ahead fast paths see more bytes
+                                if let Some((po, pk)) = parent {
+                                    if pk == buf.len() {
+                                        append_tails(ck, &lane, &mut buf, &m, &po);
+                                    }
                                 }
                                 if ck.full() {
                                     return;
@@ -891,12 +923,13 @@ pub fn add_backend_agreement(p: &mut Plan, q: bool) {
 /// Alignment: the same input placed at every start alignment 0..31 (and both guard-flush
 /// placements) must give the same result.
 pub fn add_alignment_agreement(p: &mut Plan, q: bool) {
+  let lmax = if q { 72 } else { 100 };
+  for &backend in crate::plan::BACKENDS.iter() {
     let mut tasks: Vec<TaskFn> = Vec::new();
-    let lmax = if q { 40 } else { 100 };
     for f in FIELDS.iter() {
         let f = *f;
         tasks.push(Box::new(move |ck: &mut Checker| {
-            let base = Lane::new(f.entry, f.cfg, 2);
+            let base = Lane { backend, ..Lane::new(f.entry, f.cfg, 2) };
             let mut buf = Vec::new();
             for l in 0..=lmax {
                 // offending byte at the first, a middle and the last position, plus none
@@ -910,9 +943,24 @@ pub fn add_alignment_agreement(p: &mut Plan, q: bool) {
                             buf[f.pre.len() + pos] = v;
                         }
                     }
+                  // alone, and followed by a second line / body (vector scanners need >= 16 / 32
+                  // bytes of data after the field's end to take their block path)
+                  for body in [&b""[..], b"Next-Header: value-after\r\n\r\nbody bytes to fill a vector"] {
+                    if !body.is_empty() {
+                        let keep = f.pre.len() + l + f.post.len();
+                        buf.truncate(keep);
+                        // drop the empty line that ends the head so that the body's first line belongs to it
+                        if buf.ends_with(b"\r\n\r\n") {
+                            buf.truncate(keep - 2);
+                        } else if buf.ends_with(b"\n\n") {
+                            buf.truncate(keep - 1);
+                        }
+                        buf.extend_from_slice(body);
+                    }
                     let (o0, _) = ck.eval(&base, &buf, None, None);
                     let mut places = vec![Place::StartFlush];
                     places.extend((0..32).map(Place::Mid));
+                    places.extend((0..8).map(Place::Hostile));
                     for pl in places {
                         let l2 = Lane { place: pl, ..base };
                         let (o, _) = ck.eval(&l2, &buf, None, None);
@@ -924,12 +972,14 @@ pub fn add_alignment_agreement(p: &mut Plan, q: bool) {
                             ck.relation_tag = "none";
                         }
                     }
+                  }
                 }
             }
         }));
     }
-    p.phases.push(Phase { label: format!("C13: 8 fields × L≤{} × 4 offending-byte shapes × 34 placements (start alignment 0..31, start-flush, end-flush)", lmax), backend: Backend::Native, tasks });
-    p.bounds.push(format!("alignment: field run lengths 0..={} × 4 shapes × start alignments 0..=31 + both guard-flush placements", lmax));
+    p.phases.push(Phase { label: format!("C13: 8 fields × L≤{} × 4 offending-byte shapes × 42 placements (start alignment 0..31, start-flush, end-flush, 8 with in-class bytes around the buffer)", lmax), backend, tasks });
+  }
+    p.bounds.push(format!("alignment (under each forced backend avx2 / sse4.2 / scalar): field run lengths 0..={} × 4 shapes × start alignments 0..=31 + both guard-flush placements", lmax));
 }
 
 pub fn replay_agreement(ck: &mut Checker, lane: &Lane, input: &[u8], relation: &str) -> i32 {
